@@ -196,29 +196,66 @@ end Slot
 
 /-! ### worker: the consumer behind the channel -/
 section Worker
-open ScyllaVerif.MetaUpdate ScyllaVerif.ClusterConsumer
+open ScyllaVerif.MetaUpdate ScyllaVerif.ClusterConsumer ScyllaVerif
 
 structure WorkerSt where
   pipe : Pipe
   nextRefresh : Nat := 0
+  /-- `A1`: no host filter - the node of a published topology gets a real pool (nothing listens at its address, or a
+  listener that closes at once: either way the pool's first connection attempt fails). -/
+  accepting : Bool := false
+
+/-- What the client-routes subscriber holds after the deliveries so far: a full snapshot replaces, a partial update is
+applied (`replace_client_routes` / `merge_client_routes_update`). -/
+def subscriberRoutes (ds : List Delivery) : List (RouteKey × Nat) :=
+  ds.foldl (fun acc d =>
+    match d with
+    | .replace r => r
+    | .mergeUpd upd => routesApply acc upd) []
+
+/-- The consumer takes the slot: `apply_metadata_update`, including its wait on the pools of the new state's nodes
+(one pool, whose first attempt has failed, when the host filter accepts; none otherwise). `none` = parked for good. -/
+def workerTake (st : WorkerSt) (p : Pipe) : Option Pipe :=
+  match p.slot with
+  | none => some p
+  | some u =>
+    let pools : List C19PoolInit.Pool :=
+      if st.accepting then [C19PoolInit.run {} [.startFilling 1, .connFail]] else []
+    match consumeWaiting p.cons u pools with
+    | some c => some { slot := none, cons := c }
+    | none => none
 
 /-- `K`: the consumer takes the slot; the harness then merges a sentinel DOWN hint for address 0 and the consumer takes
 that, too. Prints what is published. -/
 def workerCatchUp (st : WorkerSt) : WorkerSt × String :=
-  let p1 := pstep st.pipe .take
-  let p2 := pstep (pstep p1 (.merge (.hint 0 false))) .take
+  match workerTake st st.pipe with
+  | none => (st, "hang")
+  | some p1 =>
+  match workerTake st (pstep p1 (.merge (.hint 0 false))) with
+  | none => (st, "hang")
+  | some p2 =>
   let isNew := p2.cons.publications > st.pipe.cons.publications
   let ok := p2.cons.answered.drop st.pipe.cons.answered.length
+  let routes :=
+    if p2.cons.hasSubscriber then
+      routesStr (some ((subscriberRoutes p2.cons.delivered).map fun e => (e.1, some e.2)))
+    else "none"
   ({ st with pipe := p2 },
-   s!"pub={p2.cons.published} new={if isNew then 1 else 0} ok={listStr (ok.map toString)} err=- drop=-")
+   s!"pub={p2.cons.published} new={if isNew then 1 else 0} ok={listStr (ok.map toString)} err=- drop=- routes={routes}")
 
 def workerOp (st : WorkerSt) (idx : Nat) (op : String) : Option (WorkerSt × String) :=
   match splitOp op with
   | none => none
   | some (c, arg) =>
     let mergeOp (o : Op) : WorkerSt := { st with pipe := pstep st.pipe (.merge o) }
-    if c == 'S' then
-      if idx == 0 && (arg == "1" || arg == "0") then some (st, "-") else none
+    if c == 'A' then
+      if idx == 0 && arg == "1" then some (st, "-") else none
+    else if c == 'S' then
+      if idx == (if st.accepting then 1 else 0) && arg == "1" then some (st, "-") else none
+    else if c == 'L' then
+      match arg.toNat? with
+      | some _ => some (st, "-")          -- a listener that closes at once: the pool's attempt fails all the same
+      | none => none
     else if c == 'K' then
       if arg != "" then none else some (workerCatchUp st)
     else if c == 'C' then
@@ -252,14 +289,15 @@ def workerOp (st : WorkerSt) (idx : Nat) (op : String) : Option (WorkerSt × Str
       else none
 
 def runWorker (ops : List String) : String :=
-  let sub := ops.head? == some "S1"
+  let acc := ops.head? == some "A1"
+  let sub := (if acc then ops.tail.head? else ops.head?) == some "S1"
   let rec go : List String → Nat → WorkerSt → List String → Option (List String)
     | [], _, _, out => some out.reverse
     | op :: rest, i, st, out =>
       match workerOp st i op with
       | none => none
       | some (st', w) => go rest (i + 1) st' (w :: out)
-  match go ops 0 { pipe := { cons := { hasSubscriber := sub, published := 0 } } } [] with
+  match go ops 0 { pipe := { cons := { hasSubscriber := sub, published := 0 } }, accepting := acc } [] with
   | none => "bad-case"
   | some out => ";".intercalate out
 
